@@ -104,7 +104,12 @@ def check(prog, run):
     # O-default / O-required / O-key on the three member loops
     loops = []
     for f, member_attr in ((cav, "arguments"), (cio, "fields"), (eio, "fields")):
-        lp = [n for n in own_nodes(f.node) if isinstance(n, ast.For) and isinstance(n.iter, ast.Attribute) and n.iter.attr == member_attr]
+        # the loop over the *declared* members (its body consults the member's python_name / default), not a loop over
+        # the provided AST fields that happens to use the same attribute name
+        lp = [n for n in own_nodes(f.node) if isinstance(n, ast.For) and isinstance(n.iter, ast.Attribute) and n.iter.attr == member_attr
+              and isinstance(n.target, ast.Name)
+              and any(isinstance(x, ast.Attribute) and x.attr in ("python_name", "has_default_value") and isinstance(x.value, ast.Name)
+                      and x.value.id == n.target.id for st in n.body for x in ast.walk(st))]
         shapes.require(len(lp) == 1, "C07.O1: member loop over .%s not found in %s" % (member_attr, f.qualname))
         loops.append((f, lp[0]))
     for f, lp in loops:
@@ -160,8 +165,11 @@ def check(prog, run):
         ex_req = absent_exits(False, True)
         bad_req = []
         for kind, st, env in ex_req:
-            rejected = kind == "raise" or any(isinstance(c.func, ast.Attribute) and c.func.attr == "append" and "Error" in ast.unparse(c)
-                                              for c in env.get(boolx.CALLS, ()))
+            # rejected: the path raises, or records an error into a list that the function raises afterwards
+            raised_lists = {x.id for rs in ast.walk(f.node) if isinstance(rs, ast.Raise) and rs.exc is not None
+                            for x in ast.walk(rs.exc) if isinstance(x, ast.Name)}
+            rejected = kind == "raise" or any(isinstance(c.func, ast.Attribute) and c.func.attr == "append" and isinstance(c.func.value, ast.Name)
+                                              and c.func.value.id in raised_lists for c in env.get(boolx.CALLS, ()))
             if not rejected:
                 bad_req.append((kind, st))
         r.instance("O-required %s: %d absent required-member executions, %d not rejected" % (f.qualname, len(ex_req), len(bad_req)))
